@@ -167,14 +167,97 @@ class Ctx:
         return out
 
     def resolve(self, e, at, depth=0):
-        """Follow a local Name through unique plain assignments; returns (expr, node-of-evaluation)."""
-        while isinstance(e, ast.Name) and depth < 8:
-            ds = self.defs(at, e.id)
-            if len(ds) != 1 or ds[0][0] != 'expr':
+        """Follow a local Name through unique plain assignments (and through small pure helper methods of the
+        same class, which are inlined); returns (expr, node-of-evaluation)."""
+        while depth < 8:
+            if isinstance(e, ast.Name):
+                ds = self.defs(at, e.id)
+                if len(ds) != 1:
+                    break
+                if ds[0][0] == 'expr':
+                    e, at = ds[0][1], ds[0][2]
+                elif ds[0][0] == 'unpack' and isinstance(ds[0][1][0], ast.Call):
+                    r = self.inline(ds[0][1][0], ds[0][1][1])
+                    if r is None:
+                        break
+                    e, at = r, ds[0][2]
+                else:
+                    break
+            elif isinstance(e, ast.Call):
+                r = self.inline(e, None)
+                if r is None:
+                    break
+                e = r
+            else:
                 break
-            e, at = ds[0][1], ds[0][2]
             depth += 1
         return e, at
+
+    def inline(self, call, idx):
+        """Value of `self.helper(args)` (element idx of the returned tuple when idx is not None) as an expression
+        over the caller's names, for helpers that are straight-line code ending in a single return."""
+        f = call.func
+        if not (isinstance(f, ast.Attribute) and isinstance(f.value, ast.Name) and f.value.id in ('self', 'cls')):
+            return None
+        qn = self.fn.qualname
+        if '.' not in qn:
+            return None
+        callee = self.fn.module.funcs.get(qn.rsplit('.', 1)[0] + '.' + f.attr)
+        if callee is None or callee.node is self.fn.node:
+            return None
+        key = (id(call), idx)
+        cache = self.__dict__.setdefault('_inl', {})
+        if key in cache:
+            return cache[key]
+        cache[key] = None
+        b = _bind(call, callee.node)
+        if b is None:
+            return None
+        body = astx.strip_doc(callee.node.body)
+        if any(not isinstance(st, (ast.Assign, ast.AnnAssign, ast.Return, ast.Expr, ast.Pass)) for st in body):
+            return None
+        rets = [st for st in body if isinstance(st, ast.Return)]
+        if len(rets) != 1 or rets[0] is not body[-1] or rets[0].value is None:
+            return None
+        cctx = Ctx(callee)
+        params = cctx.params
+
+        def build(x, at_, d=0):
+            if d > 10:
+                return None
+            if isinstance(x, ast.Constant):
+                return x
+            if isinstance(x, ast.Name):
+                if x.id in ('self', 'cls'):
+                    return ast.Name(id=x.id, ctx=ast.Load())
+                ds = cctx.defs(at_, x.id)
+                if len(ds) == 1 and ds[0][0] == 'param':
+                    return b.get(x.id) if x.id in b else _default_of(callee.node, x.id)
+                if len(ds) == 1 and ds[0][0] == 'expr':
+                    return build(ds[0][1], ds[0][2], d + 1)
+                return None
+            if isinstance(x, ast.Attribute):
+                v = build(x.value, at_, d + 1)
+                return None if v is None else ast.Attribute(value=v, attr=x.attr, ctx=ast.Load())
+            if isinstance(x, ast.Subscript):
+                v, sl = build(x.value, at_, d + 1), build(x.slice, at_, d + 1)
+                return None if v is None or sl is None else ast.Subscript(value=v, slice=sl, ctx=ast.Load())
+            if isinstance(x, (ast.Tuple, ast.List)):
+                es = [build(y, at_, d + 1) for y in x.elts]
+                return None if any(y is None for y in es) else ast.Tuple(elts=es, ctx=ast.Load())
+            if isinstance(x, ast.Call) and isinstance(x.func, ast.Attribute) and x.func.attr == 'get' and \
+                    len(x.args) == 1 and not x.keywords and isinstance(x.args[0], ast.Constant):
+                v = build(x.func.value, at_, d + 1)       # d.get('k') read as d['k'] (None default irrelevant here)
+                return None if v is None else ast.Subscript(value=v, slice=x.args[0], ctx=ast.Load())
+            return None
+        rn = cctx.g.nodes_of(rets[0])
+        if not rn:
+            return None
+        val = build(rets[0].value, rn[0])
+        if val is not None and idx is not None:
+            val = val.elts[idx] if isinstance(val, ast.Tuple) and idx < len(val.elts) else None
+        cache[key] = val
+        return val
 
     def chain(self, e, at):
         """Flatten nested constant/Name subscripts: (root expr, [(slice expr, at)...]) outermost last."""
@@ -184,6 +267,19 @@ class Ctx:
             sl.append((e.slice, at))
             e, at = self.resolve(e.value, at)
         return e, at, sl[::-1]
+
+
+def _default_of(fdef, pname):
+    a = fdef.args
+    names = [x.arg for x in a.args]
+    if pname in names:
+        i = names.index(pname) - (len(names) - len(a.defaults))
+        if i >= 0:
+            return a.defaults[i]
+    for x, dflt in zip(a.kwonlyargs, a.kw_defaults):
+        if x.arg == pname:
+            return dflt
+    return None
 
 
 def _target_index(t, name, pre=()):
@@ -230,6 +326,21 @@ def guards(st, stop):
             return None
         cur = a if isinstance(a, ast.stmt) else cur
     return out
+
+
+def controlling(g, target, scope_stmt):
+    """[(test expr, required outcome)] of the if-tests lexically inside *scope_stmt* that *target* is control
+    dependent on: removing that outcome's edge makes the target unreachable (covers nesting and early
+    continue/break/return alike)."""
+    res = []
+    for T in g.nodes:
+        if T.kind != 'test' or not isinstance(T.ast, ast.If) or not g.inside(T, scope_stmt):
+            continue
+        for lab in ('true', 'false'):
+            r = bfs(g, [g.entry], lambda n, m, l, T=T, lab=lab: l != 'exc' and not (n is T and l == lab))
+            if target not in r:
+                res.append((T.ast.test, lab == 'true'))
+    return res
 
 
 def near_guards(st):
@@ -1633,7 +1744,9 @@ def _jac_function(out, fn, role_of, guard_kind, need_axis):
     result = {}
     clean = True
     per_fmt = {}
-    for st, B, facs in _block_updates(ctx, loops):
+    all_updates = list(_block_updates(ctx, loops))
+    scal_names = {nm_ for _, _, fl in all_updates if isinstance(fl, list) for nm_, _, _ in fl}
+    for st, B, facs in all_updates:
         lp = astx.enclosing(st, (ast.For,))
         outer = lp
         while astx.enclosing(outer, (ast.For,)) is not None:
@@ -1671,30 +1784,29 @@ def _jac_function(out, fn, role_of, guard_kind, need_axis):
             for pst, why, slug in probs:
                 out.bad(fn, pst or st, why, key=slug)
                 clean = False
-            # guard
-            gl = guards(st, lp)
+            # guard: every test inside the outermost loop whose outcome decides whether this statement runs
+            # (nested ifs as well as early `continue`), restricted to tests of scaler locals
+            gl = controlling(ctx.g, at, outer)
             gok = None
-            if gl is not None:
-                gs = set()
-                for t, pol in atoms(gl):
-                    if guard_kind == 'none':
-                        nt = none_test(t)
-                        if nt is not None and isinstance(nt[0], ast.Name):
-                            gs.add((nt[0].id, nt[1] == pol))
-                        else:
-                            gs.add(('?', True))
-                    else:
-                        if isinstance(t, ast.Name):
-                            gs.add((t.id, pol))
-                        else:
-                            nt = none_test(t)
-                            gs.add((nt[0].id, nt[1] == pol) if nt and isinstance(nt[0], ast.Name) else ('?', True))
-                if gs == {(nm, True)}:
-                    gok = True
-                elif ('?', True) in gs or not gs:
-                    gok = None
+            gs = set()
+            for t, pol in atoms(gl):
+                nt = none_test(t)
+                if nt is not None and isinstance(nt[0], ast.Name):
+                    a_ = (nt[0].id, nt[1] == pol)
+                elif guard_kind != 'none' and isinstance(t, ast.Name):
+                    a_ = (t.id, pol)
+                elif guard_kind == 'none' and isinstance(t, ast.Name) and t.id in scal_names:
+                    a_ = ('?', True)     # truth test of a possibly-array scaler
                 else:
-                    gok = False
+                    continue
+                if a_[0] in scal_names or a_[0] == '?':
+                    gs.add(a_)
+            if gs == {(nm, True)}:
+                gok = True
+            elif ('?', True) in gs or not gs:
+                gok = None
+            else:
+                gok = False
             if gok is None:
                 out.unsure(fn, st, f'update with `{nm}` has no recognisable None-guard')
                 clean = False
@@ -2207,7 +2319,9 @@ def _units_role(ctx, e, at):
     e0 = e
     e, at = ctx.resolve(e, at)
     if isinstance(e, ast.Subscript) and astx.const_str(e.slice) == 'units':
-        if astx.mentions(e.value, 'abs2meta', '_var_allprocs_abs2meta', '_var_abs2meta'):
+        root, _, _sl = ctx.chain(e, at)
+        if astx.mentions(e.value, 'abs2meta', '_var_allprocs_abs2meta', '_var_abs2meta') or \
+                astx.mentions(root, 'abs2meta', '_var_allprocs_abs2meta', '_var_abs2meta'):
             return 'source'
         return 'declared'
     if isinstance(e, ast.Call) and astx.callee_attr(e) == 'get' and e.args and astx.const_str(e.args[0]) == 'units':
@@ -3235,6 +3349,9 @@ class _Alias:
             return None
         if isinstance(e, ast.Call):
             nm = astx.callee_attr(e)
+            inl = ctx.inline(e, None)
+            if inl is not None:
+                return self.of(inl, at, depth + 1)
             if nm == 'get' and e.args and astx.const_str(e.args[0]) in _META_KEYS:
                 return f"meta['{astx.const_str(e.args[0])}']"
             if nm == 'get_bounds_scaling':
@@ -3271,8 +3388,11 @@ class _Alias:
                 if kind == 'expr':
                     res = self.of(payload, d, depth + 1)
                 elif kind == 'unpack':
-                    r = self.of(payload[0], d, depth + 1)
-                    res = r
+                    inl = ctx.inline(payload[0], payload[1]) if isinstance(payload[0], ast.Call) else None
+                    if inl is not None:
+                        res = self.of(inl, d, depth + 1)
+                    else:
+                        res = self.of(payload[0], d, depth + 1)
                 elif kind == 'loop':
                     lp, ix = payload
                     it = lp.iter
@@ -3304,6 +3424,15 @@ def _readonly_scan(repo, out, rels):
             reads = [w for w in astx.walk(f.node) if
                      (isinstance(w, ast.Constant) and w.value in _META_KEYS) or
                      (isinstance(w, ast.Attribute) and w.attr in _CACHE_ATTRS + ('get_bounds_scaling',))]
+            if not reads and '.' in f.qualname:
+                # reads through a helper method of the same class
+                cls_ = f.qualname.rsplit('.', 1)[0]
+                for c in astx.calls(f.node):
+                    if isinstance(c.func, ast.Attribute) and astx.path(c.func.value) == 'self':
+                        h = m.funcs.get(f'{cls_}.{c.func.attr}')
+                        if h is not None and h.node is not f.node and any(
+                                isinstance(w, ast.Constant) and w.value in _META_KEYS for w in astx.walk(h.node)):
+                            reads = [c]
             if not reads:
                 continue
             sinks = [st for st in astx.walk_stmts(f.node.body) if isinstance(st, ast.AugAssign) or
@@ -3506,6 +3635,309 @@ def total_writers_all(repo, out):
         out.ok((GUTILS, 'determine_adder_scaler'), None, f'no other writer of total_adder/total_scaler in {len(rest)} shipped modules')
 
 
+# =========================================================================== neutral element -> None
+_NEUTRAL = {'scaler': 1, 'total_scaler': 1, 'adder': 0, 'total_adder': 0}
+# truth of quantified array tests over the patterns (all entries neutral, mixed, no entry neutral)
+_ARR = ('all entries neutral', 'some entries neutral', 'no entry neutral')
+
+
+def _neutral_atom(t, xkey, neutral):
+    """Truth of an atomic test per pattern: dict pattern -> bool for the 3 array patterns + 'scalar neutral',
+    'scalar other'; None when not recognised.  xkey = structural key of the tested variable."""
+    def is_x(e):
+        return K(e) == xkey
+    nt = none_test(t)
+    if nt is not None and is_x(nt[0]):
+        return {p_: nt[1] for p_ in _ARR + ('scalar neutral', 'scalar other')}    # a declared value is present
+    if isinstance(t, ast.Call) and astx.callee_attr(t) == 'isinstance' and len(t.args) == 2 and is_x(t.args[0]) and \
+            astx.mentions(t.args[1], 'ndarray'):
+        return {**{p_: True for p_ in _ARR}, 'scalar neutral': False, 'scalar other': False}
+    if isinstance(t, ast.Compare) and len(t.ops) == 1 and isinstance(t.ops[0], (ast.Eq, ast.NotEq)):
+        a, b = t.left, t.comparators[0]
+        if is_x(b):
+            a, b = b, a
+        if is_x(a) and const_num(b) is not None:
+            if const_num(b) != neutral:
+                return None
+            eq = isinstance(t.ops[0], ast.Eq)
+            return {'scalar neutral': eq, 'scalar other': not eq}       # elementwise on arrays: not a usable test
+    if isinstance(t, ast.Call) and astx.callee_attr(t) in ('all', 'any'):
+        q = astx.callee_attr(t)
+        arg = t.args[0] if t.args else (t.func.value if isinstance(t.func, ast.Attribute) else None)
+        if isinstance(t.func, ast.Attribute) and astx.path(t.func.value) in ('np', 'numpy') and not t.args:
+            return None
+        if arg is None:
+            return None
+        if is_x(arg):
+            # truthiness of the entries: non-zero
+            if neutral != 0:
+                return None
+            vals = (False, False, True) if q == 'all' else (False, True, True)
+            return dict(zip(_ARR, vals))
+        if isinstance(arg, ast.Compare) and len(arg.ops) == 1 and isinstance(arg.ops[0], (ast.Eq, ast.NotEq)):
+            a, b = arg.left, arg.comparators[0]
+            if is_x(b):
+                a, b = b, a
+            if is_x(a) and const_num(b) == neutral:
+                if isinstance(arg.ops[0], ast.Eq):
+                    vals = (True, False, False) if q == 'all' else (True, True, False)
+                else:
+                    vals = (False, False, True) if q == 'all' else (False, True, True)
+                return dict(zip(_ARR, vals))
+        if isinstance(arg, ast.Call) and astx.callee_attr(arg) == 'isclose' and len(arg.args) >= 2 and \
+                is_x(arg.args[0]) and const_num(arg.args[1]) == neutral:
+            vals = (True, False, False) if q == 'all' else (True, True, False)
+            return dict(zip(_ARR, vals))
+    return None
+
+
+@rule('C20.neutral', floor=20)
+def neutral(repo, out):
+    """A declared scaler/adder is replaced by None (= no scaling) only when EVERY entry is the neutral element (1 resp. 0)."""
+    m = repo.module(SYSTEM)
+    for f in m.funcs.values():
+        if not any(isinstance(w, ast.Constant) and w.value in ('total_scaler', 'scaler') for w in astx.walk(f.node)) and \
+                not any(a.arg in ('scaler', 'adder') for a in f.node.args.args + f.node.args.kwonlyargs):
+            continue
+        for st in astx.walk_stmts(f.node.body):
+            if not (isinstance(st, ast.Assign) and len(st.targets) == 1 and isinstance(st.value, ast.Constant)
+                    and st.value.value is None):
+                continue
+            t = st.targets[0]
+            role = t.id if isinstance(t, ast.Name) else (astx.const_str(t.slice) if isinstance(t, ast.Subscript) else None)
+            if role not in _NEUTRAL:
+                continue
+            gl = []
+            cur = st
+            for a in astx.ancestors(st):
+                if isinstance(a, ast.If):
+                    gl.append((a.test, cur in a.body))
+                if isinstance(a, (ast.FunctionDef, ast.AsyncFunctionDef)):
+                    break
+                if isinstance(a, ast.stmt):
+                    cur = a
+            ats = atoms(gl)
+            xkey = K(t)
+            neutral_v = _NEUTRAL[role]
+            tables = []
+            relevant = False
+            unknown = None
+            if any(isinstance(tt, ast.Call) and astx.callee_attr(tt) in ('is_undefined',) and pol for tt, pol in ats):
+                continue            # "nothing was declared" sentinel, not a declared value being dropped
+            for tt, pol in ats:
+                if not any(K(w) == xkey for w in astx.walk(tt)):
+                    continue        # a test about something else (static mode, the other scaling family, ...)
+                relevant = True
+                tb = _neutral_atom(tt, xkey, neutral_v)
+                if tb is None:
+                    unknown = tt
+                    break
+                tables.append((tb, pol))
+            if not relevant:
+                continue            # unconditional reset (e.g. the other scaling family is active)
+            if unknown is not None:
+                out.unsure(f, st, f'unrecognised test `{astx.src(unknown)}` in front of `{astx.src(st)}`')
+                continue
+            reach = []
+            for p_ in _ARR + ('scalar neutral', 'scalar other'):
+                ok_ = True
+                for tb, pol in tables:
+                    if p_ not in tb:
+                        ok_ = None if ok_ else ok_
+                        continue
+                    if tb[p_] != pol:
+                        ok_ = False
+                if ok_:
+                    reach.append(p_)
+            wrong = [p_ for p_ in reach if p_ not in ('all entries neutral', 'scalar neutral')]
+            if wrong:
+                out.bad(f, st, f'`{role}` is dropped (set to None = unscaled) when it has {wrong[0]} '
+                        f'(neutral element {neutral_v}): the remaining entries of the declared {role} are ignored',
+                        key=f'neutral-{role}')
+            else:
+                out.ok(f, st, f'`{role}` -> None only when every entry is {neutral_v}')
+
+
+# =========================================================================== which keys are applied
+_DECLARED_KEYS = ('scaler', 'adder', 'ref', 'ref0')
+
+
+def _arith_context(node):
+    """True when *node* is an operand of + - * / (possibly through calls/attributes) or of an op= statement."""
+    cur = node
+    for a in astx.ancestors(node):
+        if isinstance(a, ast.BinOp) and isinstance(a.op, (ast.Mult, ast.Div, ast.Add, ast.Sub)):
+            return True
+        if isinstance(a, ast.AugAssign):
+            return cur is a.value or cur is not a.target
+        if isinstance(a, ast.Subscript) and cur is a.slice:
+            return False
+        if isinstance(a, (ast.Compare, ast.BoolOp, ast.IfExp)) and not isinstance(a, ast.IfExp):
+            return False
+        if isinstance(a, ast.stmt):
+            return False
+        cur = a
+    return False
+
+
+def _applied_scan(repo, out, rels):
+    for rel in rels:
+        src = repo.source(rel)
+        if not any(f"'{k}'" in src or f'"{k}"' in src for k in _DECLARED_KEYS + _META_KEYS):
+            continue
+        m = repo.module(rel)
+        for f in m.funcs.values():
+            def has_keys(node):
+                return any(isinstance(w, ast.Constant) and w.value in _DECLARED_KEYS + _META_KEYS for w in astx.walk(node))
+            relevant = has_keys(f.node)
+            if not relevant and '.' in f.qualname:
+                cls_ = f.qualname.rsplit('.', 1)[0]
+                for c in astx.calls(f.node):
+                    if isinstance(c.func, ast.Attribute) and astx.path(c.func.value) == 'self':
+                        h = m.funcs.get(f'{cls_}.{c.func.attr}')
+                        if h is not None and h.node is not f.node and has_keys(h.node):
+                            relevant = True
+            if not relevant:
+                continue
+            ctx = Ctx(f)
+            done = set()
+            for w in astx.walk(f.node):
+                if not isinstance(w, (ast.Subscript, ast.Name)) or isinstance(getattr(w, 'ctx', None), ast.Store):
+                    continue
+                if isinstance(w, ast.Subscript) and astx.const_str(w.slice) not in _DECLARED_KEYS + _META_KEYS:
+                    continue
+                if not _arith_context(w):
+                    continue
+                st = astx.stmt_of(w)
+                ns = ctx.g.nodes_of(st)
+                if not ns:
+                    continue
+                cands = [ctx.resolve(w, ns[0])[0]]
+                if isinstance(cands[0], ast.Name):
+                    # several definitions (value / default): look at each
+                    cands = [ctx.resolve(pl, d_)[0] for kd, pl, d_ in ctx.defs(ns[0], cands[0].id) if kd == 'expr']
+                    cands += [ctx.inline(pl[0], pl[1]) for kd, pl, d_ in ctx.defs(ns[0], w.id if isinstance(w, ast.Name) else '')
+                              if kd == 'unpack' and isinstance(pl[0], ast.Call)]
+                k = None
+                for e in cands:
+                    if e is None:
+                        continue
+                    x, _d, _i = _unwrap_default(e)
+                    k_ = None
+                    if isinstance(x, ast.Subscript):
+                        k_ = astx.const_str(x.slice)
+                    elif isinstance(x, ast.Call) and astx.callee_attr(x) == 'get' and x.args:
+                        k_ = astx.const_str(x.args[0])
+                    if k_ in _DECLARED_KEYS:
+                        k = k_
+                        break
+                    if k_ in _META_KEYS:
+                        k = k_
+                if k not in _DECLARED_KEYS + _META_KEYS or (id(st), k) in done:
+                    continue
+                done.add((id(st), k))
+                if k in _DECLARED_KEYS:
+                    out.bad(f, st, f"meta['{k}'] (the declaration as typed by the user) is used in arithmetic; the "
+                            f"map that is applied to values, bounds and derivatives is meta['total_scaler'/'total_adder'] "
+                            f"(with ref/ref0 declarations meta['{k}'] is None or a different number)", key=f'applied-{k}')
+                else:
+                    out.ok(f, st, f"applies meta['{k}']")
+
+
+@rule('C20.applied-keys', floor=9)
+def applied_keys(repo, out):
+    """Driver-side arithmetic only ever uses the combined total_scaler/total_adder, never the declared scaler/adder/ref/ref0."""
+    _applied_scan(repo, out, [AUTO, BAUTO, OVEC, DRIVER, TOTJAC])
+
+
+@rule('C20.applied-keys-all', floor=1, tier='thorough')
+def applied_keys_all(repo, out):
+    """Same over the other modules of openmdao/drivers/."""
+    rest = [r for r in repo.shipped() if r.startswith('openmdao/drivers/') and r not in (AUTO, BAUTO)]
+    n0 = len(out.items)
+    _applied_scan(repo, out, rest)
+    if len(out.items) == n0:
+        out.ok((DRIVER, 'Driver'), None, f'no arithmetic on scaling metadata in the other {len(rest)} driver modules')
+
+
+# =========================================================================== values handed out are copies
+def _may_view(ctx, e, at, vec_roots, depth=0):
+    """True when *e* may be a view of the persistent optimizer vector data."""
+    if depth > 8 or e is None:
+        return False
+    if isinstance(e, ast.Subscript):
+        base, bat = ctx.resolve(e.value, at)
+        if astx.path(base) in vec_roots or (isinstance(base, ast.Subscript) and astx.path(base.value) in vec_roots):
+            return True
+        return _may_view(ctx, e.value, at, vec_roots, depth + 1)     # indexing a view may again be a view
+    if isinstance(e, ast.Attribute):
+        if e.attr in ('T', 'flat', 'real', '_data'):
+            return astx.path(e) in ('self._data',) and 'self' in vec_roots or _may_view(ctx, e.value, at, vec_roots, depth + 1)
+        return False
+    if isinstance(e, ast.Call):
+        nm = astx.callee_attr(e)
+        if isinstance(e.func, ast.Attribute) and astx.path(e.func.value) in ('np', 'numpy'):
+            if nm in _VIEW_FUNCS and e.args:
+                return _may_view(ctx, e.args[0], at, vec_roots, depth + 1)
+            return False
+        if isinstance(e.func, ast.Attribute) and nm in _VIEW_METHODS:
+            if nm == 'asarray' and not (e.args or e.keywords):
+                b, _ = ctx.resolve(e.func.value, at)
+                if astx.path(b) in vec_roots or (isinstance(b, ast.Subscript) and astx.path(b.value) in vec_roots):
+                    return True
+            return _may_view(ctx, e.func.value, at, vec_roots, depth + 1)
+        return False
+    if isinstance(e, ast.IfExp):
+        return _may_view(ctx, e.body, at, vec_roots, depth + 1) or _may_view(ctx, e.orelse, at, vec_roots, depth + 1)
+    if isinstance(e, ast.BoolOp):
+        return any(_may_view(ctx, v, at, vec_roots, depth + 1) for v in e.values)
+    if isinstance(e, ast.Name):
+        for kind, payload, d in ctx.defs(at, e.id):
+            if kind == 'expr' and _may_view(ctx, payload, d, vec_roots, depth + 1):
+                return True
+            if kind == 'loop':
+                lp, ix = payload
+                it = lp.iter
+                if isinstance(it, ast.Call) and astx.callee_attr(it) in ('items', 'values') and \
+                        isinstance(it.func, ast.Attribute):
+                    b, _ = ctx.resolve(it.func.value, d)
+                    if astx.path(b) in vec_roots or (isinstance(b, ast.Subscript) and astx.path(b.value) in vec_roots):
+                        if astx.callee_attr(it) == 'values' or ix == (1,):
+                            return True
+        return False
+    return False
+
+
+@rule('C20.copies-out', floor=2)
+def copies_out(repo, out):
+    """The dictionaries returned by OptimizerVector._to_dict and Driver.get_constraint_values hold copies, never views of the persistent work vector (which the next update/scaling overwrites in place)."""
+    for rel, qn, roots in ((OVEC, 'OptimizerVector._to_dict', ('self',)),
+                           (DRIVER, 'Driver.get_constraint_values', ('self._vectors',))):
+        fn = repo.func(rel, qn)
+        ctx = Ctx(fn)
+        rets = {st.value.id for st in astx.walk_stmts(fn.node.body) if isinstance(st, ast.Return)
+                and isinstance(st.value, ast.Name)}
+        if not rets:
+            out.unsure(fn, fn.node, 'the function does not return a named dictionary')
+            continue
+        stores = [st for st in astx.walk_stmts(fn.node.body) if isinstance(st, ast.Assign) and len(st.targets) == 1
+                  and isinstance(st.targets[0], ast.Subscript) and isinstance(st.targets[0].value, ast.Name)
+                  and st.targets[0].value.id in rets]
+        if not stores:
+            out.unsure(fn, fn.node, 'no store into the returned dictionary found')
+            continue
+        for st in stores:
+            ns = ctx.g.nodes_of(st)
+            if not ns:
+                continue
+            if _may_view(ctx, st.value, ns[0], roots):
+                out.bad(fn, st, f'`{astx.src(st.value)}` can be a view of the persistent optimizer vector on some path (no '
+                        '.copy()): the dictionary handed to the caller changes when the vector is next updated, scaled or '
+                        'unscaled in place', key='view-handed-out')
+            else:
+                out.ok(fn, st, 'value stored in the returned dictionary is a fresh array on every path')
+
+
 # =========================================================================== self-test
 _UNSC = ("            if scaler is not None:\n                vec[name] /= scaler\n"
          "            if adder is not None:\n                vec[name] -= adder\n")
@@ -3530,6 +3962,21 @@ _FLAT_OUT = ("            elif out_name in self._var_meta['constraint']:\n"
              "                out_scaler = self._var_meta['constraint'][out_name]['total_scaler']\n"
              "            else:\n                # Unknown output, skip scaling this entry\n                continue\n")
 _DE = 'openmdao/drivers/differential_evolution_driver.py'
+_H_DEF = ("    def _get_total_scaler_adder(self, voi_type, name):\n"
+          "        total_scaler = self._var_meta[voi_type][name]['total_scaler']\n"
+          "        total_adder = self._var_meta[voi_type][name]['total_adder']\n"
+          "        return total_scaler, total_adder\n\n")
+_H_ANCHOR = "    def _apply_vec_unscaling(self, vec: 'OptimizerVector'):\n"
+_H_OLD = ("            scaler = self._var_meta[vec.voi_type][name]['total_scaler']\n"
+          "            adder = self._var_meta[vec.voi_type][name]['total_adder']\n")
+_H_NEW = "            scaler, adder = self._get_total_scaler_adder(vec.voi_type, name)\n"
+# the helper-extracted shape: both loops read the pair through one helper method
+_H_SHAPE = [(AUTO, _H_OLD, _H_NEW), (AUTO, _H_OLD, _H_NEW)]
+_UNIT_NESTED = ("                out_scaler = self._resp_unit_scalers.get(out_name)\n\n"
+                "                for in_name, block in in_dict.items():\n"
+                "                    if out_scaler:\n                        block *= out_scaler\n")
+_VIOLSC = ("            if viol and driver_scaling and meta['total_scaler'] is not None:\n"
+           "                con_dict[name] *= meta['total_scaler']\n")
 _MDV = ("                scaler = self._var_meta['design_var'][name]['total_scaler']\n"
         "                if scaler is None:\n                    scaler = 1.0\n")
 _MCON = _MDV.replace("'design_var'", "'constraint'")
@@ -3832,6 +4279,78 @@ selftest(
          "resp['total_adder'], resp['total_scaler'] = determine_adder_scaler(ref0=ref0, ref=ref, adder=adder, scaler=scaler)"),
     Twin('twin-total-subscript-stores', SYSTEM, "            'total_adder': total_adder,\n            'total_scaler': total_scaler,\n        }\n",
          "        }\n        new_obj_metadata['total_adder'] = total_adder\n        new_obj_metadata['total_scaler'] = total_scaler\n"),
+    # ---- round 3 / second robustness round
+    Mutant('seed3-1-unit-row-skipped-by-continue', TOTJAC, _UNIT_NESTED,
+           "                out_scaler = self._resp_unit_scalers.get(out_name)\n                if not out_scaler:\n                    continue\n\n"
+           "                for in_name, block in in_dict.items():\n                    block *= out_scaler\n", 'C20.jac'),
+    Mutant('jac-flat-continue-on-missing-out-scaler', AUTO,
+           "            if out_scaler is not None:\n                jac_block[...] = (out_scaler * jac_block.T).T\n",
+           "            if out_scaler is None:\n                continue\n            jac_block[...] = (out_scaler * jac_block.T).T\n", 'C20.jac'),
+    Mutant('seed3-2-any-entry-neutral', SYSTEM, "            if np.all(scaler == 1.0):\n                scaler = None\n        elif scaler == 1.0:",
+           "            if np.any(scaler == 1.0):\n                scaler = None\n        elif scaler == 1.0:", 'C20.neutral'),
+    Mutant('neutral-adder-not-all-nonzero', SYSTEM, "            if not np.any(adder):\n                adder = None\n        elif adder == 0.0:",
+           "            if not np.all(adder):\n                adder = None\n        elif adder == 0.0:", 'C20.neutral'),
+    Mutant('neutral-total-scaler-any', SYSTEM, "                if np.all(total_scaler == 1.0):", "                if np.any(total_scaler == 1.0):", 'C20.neutral'),
+    Mutant('neutral-scalar-inverted', SYSTEM, "        elif scaler == 1.0:\n            scaler = None\n\n        if isinstance(adder, np.ndarray):\n            if not np.any(adder):\n                adder = None\n        elif adder == 0.0:\n            adder = None\n\n        # determine adder",
+           "        elif scaler != 1.0:\n            scaler = None\n\n        if isinstance(adder, np.ndarray):\n            if not np.any(adder):\n                adder = None\n        elif adder == 0.0:\n            adder = None\n\n        # determine adder", 'C20.neutral'),
+    Mutant('seed3-3-violation-scaled-by-declared-scaler', DRIVER, _VIOLSC, _VIOLSC.replace("'total_scaler'", "'scaler'"), 'C20.applied-keys'),
+    Mutant('applied-declared-scaler-through-alias', AUTO, _MDV, _MDV.replace("'total_scaler'", "'scaler'"), 'C20.applied-keys'),
+    Mutant('applied-ref-in-unscale', AUTO, "                vec[name] /= scaler\n", "                vec[name] *= self._var_meta[vec.voi_type][name]['ref']\n",
+           'C20.applied-keys'),
+    Mutant('seed3-4-to-dict-hands-out-views', OVEC, "                val = self[name].copy()  # Use copy to return independent array (gathered array)\n",
+           "                val = self[name]\n", 'C20.copies-out',
+           also=[(OVEC, "                    val = val[distributed_indices]\n", "                    val = val[distributed_indices].copy()\n")]),
+    Mutant('constraint-dict-holds-views', DRIVER, "            con_dict[name] = con_vec[name].copy()\n", "            con_dict[name] = con_vec[name]\n",
+           'C20.copies-out'),
+    Mutant('to-dict-asarray-view', OVEC, "                val = self[name].copy()  # Use copy to return independent array (gathered array)\n",
+           "                val = self._data[meta['slice']].reshape(-1)\n", 'C20.copies-out'),
+    Mutant('helper-shape-pair-swapped', AUTO, _H_ANCHOR, _H_DEF.replace('return total_scaler, total_adder', 'return total_adder, total_scaler') + _H_ANCHOR,
+           'C20.mirror', also=_H_SHAPE),
+    Mutant('helper-shape-fixed-table', AUTO, _H_ANCHOR, _H_DEF + _H_ANCHOR, 'C20.mirror',
+           also=[(AUTO, _H_OLD, "            scaler, adder = self._get_total_scaler_adder('design_var', name)\n"), (AUTO, _H_OLD, _H_NEW)]),
+    Mutant('helper-shape-in-place-on-result', AUTO, _H_ANCHOR, _H_DEF + _H_ANCHOR, 'C20.meta-readonly',
+           also=_H_SHAPE + [(AUTO, "            if adder is not None:\n                vec[name] -= adder\n",
+                             "            if adder is not None:\n                adder *= -1\n                vec[name] += adder\n")]),
+    Mutant('no-early-return-shape-flag-not-cleared', AUTO,
+           "        if not vec.driver_scaling:\n            return vec\n        \n        for name in vec:",
+           "        if vec.driver_scaling:\n          for name in vec:", 'C20.flag',
+           also=[(AUTO, _H_OLD + "\n            # Unscale: x_model = x_optimizer / scaler - adder\n" + _UNSC + "        vec._driver_scaling = False\n",
+                  "            scaler = self._var_meta[vec.voi_type][name]['total_scaler']\n"
+                  "            adder = self._var_meta[vec.voi_type][name]['total_adder']\n"
+                  "            if scaler is not None:\n                vec[name] /= scaler\n"
+                  "            if adder is not None:\n                vec[name] -= adder\n")]),
+    Mutant('units-alias-shape-direction-swapped', DRIVER,
+           "                src_units = problem.model._var_abs2meta['output'][src_name]['units']\n"
+           "                desvar[loc_idxs] = convert_units(desvar[loc_idxs], units, src_units)\n",
+           "                abs2meta_out = problem.model._var_abs2meta['output']\n                src_units = abs2meta_out[src_name]['units']\n"
+           "                desvar[loc_idxs] = convert_units(desvar[loc_idxs], src_units, units)\n", 'C20.units-mirror'),
+    Twin('twin-helper-extracted', AUTO, _H_ANCHOR, _H_DEF + _H_ANCHOR, also=_H_SHAPE),
+    Twin('twin-helper-meta-alias-and-no-early-return', AUTO,
+         "        if not vec.driver_scaling:\n            return vec\n        \n        for name in vec:",
+         "        if vec.driver_scaling:\n          for name in vec:",
+         also=[(AUTO, _H_OLD + "\n            # Unscale: x_model = x_optimizer / scaler - adder\n" + _UNSC + "        vec._driver_scaling = False\n",
+                "            scaler, adder = self._total_scaling(vec.voi_type, name)\n"
+                "            if scaler is not None:\n                vec[name] /= scaler\n"
+                "            if adder is not None:\n                vec[name] -= adder\n"
+                "          vec._driver_scaling = False\n"),
+               (AUTO, "    def apply_design_var_unscaling(self, vec: 'OptimizerVector'):\n",
+                "    def _total_scaling(self, voi_type, name):\n        meta = self._var_meta[voi_type][name]\n"
+                "        return meta['total_scaler'], meta['total_adder']\n\n"
+                "    def apply_design_var_unscaling(self, vec: 'OptimizerVector'):\n")]),
+    Twin('twin-units-abs2meta-alias', DRIVER,
+         "                src_units = problem.model._var_abs2meta['output'][src_name]['units']\n",
+         "                abs2meta_out = problem.model._var_abs2meta['output']\n                src_units = abs2meta_out[src_name]['units']\n"),
+    Twin('twin-unit-in-scaler-early-continue', TOTJAC, "                if in_scaler:\n                    block *= (1.0 / in_scaler)\n        else:",
+         "                if not in_scaler:\n                    continue\n                block *= (1.0 / in_scaler)\n        else:"),
+    Twin('twin-neutral-method-all', SYSTEM, "            if np.all(scaler == 1.0):\n                scaler = None\n        elif scaler == 1.0:",
+         "            if (scaler == 1.0).all():\n                scaler = None\n        elif scaler == 1.0:"),
+    Twin('twin-neutral-adder-all-zero', SYSTEM, "            if not np.any(adder):\n                adder = None\n        elif adder == 0.0:",
+         "            if np.all(adder == 0.0):\n                adder = None\n        elif adder == 0.0:"),
+    Twin('twin-violation-scaler-alias', DRIVER, _VIOLSC,
+         "            ts = meta['total_scaler']\n            if viol and driver_scaling and ts is not None:\n"
+         "                con_dict[name] = con_dict[name] * ts\n"),
+    Twin('twin-to-dict-np-array', OVEC, "                val = self[name].copy()  # Use copy to return independent array (gathered array)\n",
+         "                val = np.array(self[name])\n"),
     # ---- twins
     Twin('twin-order-extra-guarded-debug', TOTJAC, "                self._apply_unit_scaling(self.J_dict)\n\n                # Driver scaling.",
          "                if debug_print:\n                    print('scaling', flush=True)\n                self._apply_unit_scaling(self.J_dict)\n\n                # Driver scaling."),
